@@ -122,6 +122,9 @@ func idlDefault(v *tref.Val) string {
 		}
 		return s
 	case tref.STRING:
+		if s := string(v.S); strings.Contains(s, `"`) && !strings.ContainsAny(s, "'\\") {
+			return "'" + s + "'" // a literal with double quotes inside is written in single quotes
+		}
 		return fmt.Sprintf("%q", string(v.S))
 	}
 	return ""
